@@ -409,6 +409,12 @@ def alpha_rename(snapshot: ast.FunctionDef, current: ast.FunctionDef):
     function body, every nested function or lambda, every comprehension; not the function's own parameters, not
     attributes, not free names), returns (copy of current carrying the snapshot's names, {current name: snapshot name});
     otherwise None.  Alpha-renaming preserves meaning: the verified text is still the current code."""
+    # the names of locals are observable only through reflection: a function that uses any is left as it is
+    for n in ast.walk(current):
+        if isinstance(n, ast.Call) and isinstance(n.func, ast.Name) and n.func.id in ("locals", "vars", "dir", "eval", "exec", "globals"):
+            return None
+        if isinstance(n, ast.Attribute) and n.attr in ("_getframe", "f_locals", "currentframe"):
+            return None
     current = copy.deepcopy(current)
     todo = []   # (node, attribute, new value) applied when the whole function unifies
     ren_all = {}
